@@ -279,6 +279,48 @@ class Path:
         memo[key] = (r, stamp, cond)
         return r
 
+    def entails_sliced(self, cond, timeout_ms=4000):
+        import time
+
+        facts = [f for f in list(self.hyps) + list(self.pc) + self._ctx() if not z3.is_quantifier(f)]
+        atoms_of = [(_atoms(f), f) for f in facts]
+        want = set(_atoms(cond))
+        chosen = []
+        changed = True
+        rest = atoms_of
+        while changed:
+            changed = False
+            nxt = []
+            for at, f in rest:
+                if at & want:
+                    chosen.append(f)
+                    if not at <= want:
+                        want |= at
+                        changed = True
+                else:
+                    nxt.append((at, f))
+            rest = nxt
+        # purification: integer-valued applications of uninterpreted functions become constants, so that the
+        # non-linear arithmetic procedure sees polynomials over variables (weakening: sound for entailment)
+        subst = {}
+        for f in chosen + [cond]:
+            _int_apps(f, subst)
+        pairs = [(t_, z3.Int(f"pur!{i}") if t_.sort() == z3.IntSort() else z3.Bool(f"purb!{i}"))
+                 for i, t_ in enumerate(subst.values())]
+        goal = [z3.substitute(f, *pairs) if pairs else f for f in chosen]
+        goal.append(z3.Not(z3.substitute(cond, *pairs) if pairs else cond))
+        t = time.time()
+        r = nia_portfolio(goal, timeout_ms)
+        self.solver_seconds += time.time() - t
+        self.solver_calls += 1
+        s = z3.Solver()
+        s.add(goal)
+        if _DEBUG:
+            print(f"[sliced] {len(chosen)}/{len(facts)} facts -> {r} {time.time() - t:.2f}s")
+            if r != z3.unsat:
+                open("/tmp/sliced.smt2", "w").write(s.to_smt2())
+        return r == z3.unsat
+
     def pick(self, cond, a, b):
         """context-aware ite: choose a branch when the path decides the condition, else build If"""
         cond = z3.simplify(cond)
@@ -302,6 +344,11 @@ class Path:
         # entailment-only: a branch is explored unless it is refuted (over-approximation of feasibility)
         must_t = self.entails(cond)
         must_f = (not must_t) and self.entails(z3.Not(cond))
+        if not must_t and not must_f and not getattr(self, "_local", False) and _nonlinear(cond):
+            # second attempt for arithmetic side conditions: only the facts connected to the condition through
+            # shared ground terms, in a fresh solver (dropping hypotheses is sound for entailment)
+            must_t = self.entails_sliced(cond)
+            must_f = (not must_t) and self.entails_sliced(z3.Not(cond))
         if must_t and self.entails(z3.Not(cond)):
             raise DeadPath()
         can_t, can_f = not must_f, not must_t
@@ -376,6 +423,90 @@ class LocalRaise:
 
     def __init__(self, exc):
         self.exc = exc
+
+
+def _atoms(t):
+    """ids of the uninterpreted constants / applications occurring in t (applications are atoms: not descended)"""
+    out = set()
+    seen = set()
+    stack = [t]
+    while stack:
+        x = stack.pop()
+        i = x.get_id()
+        if i in seen:
+            continue
+        seen.add(i)
+        if z3.is_app(x) and x.decl().kind() == z3.Z3_OP_UNINTERPRETED:
+            out.add(i)
+            if x.num_args() and x.sort() == z3.IntSort() and all(z3.is_int_value(c) for c in x.children()):
+                continue
+            if x.num_args() == 0:
+                continue
+            continue
+        if z3.is_app(x):
+            stack.extend(x.children())
+    return out
+
+
+def nia_portfolio(assertions, budget_ms=4000):
+    """unsat / sat / unknown for a quantifier-free non-linear integer problem. z3's non-linear procedure is
+    sensitive to term order and seeds: several short attempts (fresh context, different seeds) are made; any
+    `unsat` is a proof (each attempt is a complete run of the solver on the same assertions)."""
+    import time
+
+    t0 = time.time()
+    attempt = 0
+    slices = [300, 300, 600, 600, 1200, 1200, 2400]
+    while (time.time() - t0) * 1000 < budget_ms and attempt < len(slices):
+        ctx = z3.Context()
+        s = z3.Solver(ctx=ctx)
+        s.set("timeout", slices[attempt])
+        s.set("random_seed", attempt)
+        s.set("smt.random_seed", attempt)
+        s.set("smt.arith.random_initial_value", attempt % 2 == 1)
+        for f in assertions:
+            s.add(f.translate(ctx))
+        r = s.check()
+        if r == z3.unsat:
+            return z3.unsat
+        if r == z3.sat:
+            return z3.sat
+        attempt += 1
+    return z3.unknown
+
+
+def _int_apps(t, out):
+    """maximal applications (with arguments) of uninterpreted functions of sort Int in t, by id"""
+    seen = set()
+    stack = [t]
+    while stack:
+        x = stack.pop()
+        i = x.get_id()
+        if i in seen:
+            continue
+        seen.add(i)
+        if z3.is_app(x):
+            if x.decl().kind() == z3.Z3_OP_UNINTERPRETED and x.num_args() > 0 and x.sort() in (z3.IntSort(), z3.BoolSort()):
+                out[i] = x
+                continue
+            stack.extend(x.children())
+    return out
+
+
+def _nonlinear(t):
+    seen = set()
+    stack = [t]
+    while stack:
+        x = stack.pop()
+        i = x.get_id()
+        if i in seen:
+            continue
+        seen.add(i)
+        if z3.is_app(x):
+            if x.decl().kind() == z3.Z3_OP_MUL and sum(1 for c in x.children() if not z3.is_int_value(c)) >= 2:
+                return True
+            stack.extend(x.children())
+    return False
 
 
 class DeadPath(Exception):
